@@ -191,7 +191,7 @@ fn layout(t: Tier) -> Layout {
         n_edge: SITES.len() * EDGE_MAX,
         n_budget: SITES.len(),
         n_uniform: t.pick(500, 25000),
-        n_observe: SITES.len() + 1,
+        n_observe: SITES.len() + 1 + 2,
     }
 }
 
@@ -314,6 +314,25 @@ pub fn run_c14(p: &mut Prng, t: Tier, i: usize, sink: &mut Sink) {
             w.samples.push(json!({"schedule": w.history.iter().take(14).cloned().collect::<Vec<_>>() }));
         }
         w.objs.kex.clear();
+        // two randomised calls by two caller threads (byte-slot sites only), interleaved at the seam
+        if i % 4 == 1 {
+            let sites = ["sm2.sign", "sm2.encrypt", "sm9.master.enc", "sm9.sign", "sm9.encrypt", "sm9.kex1a"];
+            let (sa, sb) = (*p.pick(&sites), *p.pick(&sites));
+            let (ia, ib) = (p.fork(), p.fork());
+            site_call_mode(&mut ia.clone(), &mut w, "pa", sa, json!({}), 1);
+            site_call_mode(&mut ib.clone(), &mut w, "pb", sb, json!({}), 1);
+            // capture the call ops by running the call half on scratch worlds
+            let call_op = |inputs: &Prng, w: &World, pfx: &str, site: &str, sc: Value| -> Option<Value> {
+                let mut probe = w.fork();
+                site_call_mode(&mut inputs.clone(), &mut probe, pfx, site, sc, 2);
+                probe.history.last().cloned().filter(|o| o.get("rng").is_some())
+            };
+            let sca = rng_json(&uniform_script(p, 1));
+            let scb = rng_json(&uniform_script(p, 1));
+            if let (Some(a), Some(b)) = (call_op(&ia, &w, "pa", sa, sca), call_op(&ib, &w, "pb", sb, scb)) {
+                w.exec(par(a, b, &par_order(p)));
+            }
+        }
         sink.done(w);
         return;
     }
@@ -326,6 +345,13 @@ pub fn run_c14(p: &mut Prng, t: Tier, i: usize, sink: &mut Sink) {
         w.exec(json!({"op":"c14.stats","group":group}));
         w.bump(&format!("history.m3-observe-{site}"));
         sink.done(w);
+    } else if i < SITES.len() + 2 {
+        // bulk: enough scalars for the birthday bound of a 32-bit (SM9: ~36-bit) internal value
+        let group = if i == SITES.len() { "sm9" } else { "sm2" };
+        let n = if group == "sm9" { t.pick(400_000, 2_000_000) } else { t.pick(25_000, 400_000) };
+        w.exec(json!({"op":"c14.bulk","group":group,"n":n}));
+        w.exec(json!({"op":"c14.stats","group":group}));
+        sink.done(w);
     } else {
         w.exec(json!({"op":"c14.observe","site":"all","n":2,"seed":p.next_u64()}));
         w.exec(json!({"op":"c14.restart","procs":3,"per_site":t.pick(4, 32)}));
@@ -335,6 +361,8 @@ pub fn run_c14(p: &mut Prng, t: Tier, i: usize, sink: &mut Sink) {
 
 /// `gmsim c14-child <per_site>`: a fresh process drawing from the real generator at every site.
 pub fn child_main(per_site: usize) {
+    let now = std::time::SystemTime::now().duration_since(std::time::UNIX_EPOCH).map(|d| d.as_nanos()).unwrap_or(0);
+    println!("env {now} {}", std::process::id());
     let mut p = Prng::new(0xC14C_411D);
     let w = observe_world(&mut p, &SITES, per_site);
     for (g, v) in &w.observed {
